@@ -10,7 +10,9 @@ TARGETS = ["Props/C02.vo"]
 
 SEM_TAGS = ["v1.0.0", "1.0.0", "v1.2.3", "v2.0.0", "v2.0.0-rc.1", "v0.1.0", "v1.10.0", "v1.9.0", "1.0.0-alpha", "1.0.0-alpha.1", "v1.0.0+build.5", "v3.0.0-beta.2", "v10.0.0", "v1.0.1", "0.0.1",
             "v1.0.0-rc.1", "v1.0.0-1", "v2.1.0-0.3.7"]
-PEP_TAGS = ["1.0.0rc1", "1.1.0a1", "1.2.0b2", "2.0", "1.0.post1", "1.0.dev3", "1!0.5", "v1.0.0a2", "3.1", "2.0.0.post2", "1.0.0rc2", "0.9", "1.0+local.1", "2.0.0.0"]
+PEP_TAGS = ["1.0.0rc1", "1.1.0a1", "1.2.0b2", "2.0", "1.0.post1", "1.0.dev3", "1!0.5", "v1.0.0a2", "3.1", "2.0.0.post2", "1.0.0rc2", "0.9", "1.0+local.1", "2.0.0.0",
+            # spellings only the PEP 440 grammar accepts (capital V, capital labels, underscores): any pre-filter on tag NAMES must not drop them
+            "V2.5.0", "V0.3.0", "V1.0.0RC3", "1.4.0_POST_2", "V3.0.DEV1"]
 JUNK_TAGS = ["release", "latest", "foo-1", "nightly", "v", "1", "x1.0.0", "build/7", "v1.0", "vv1.0.0", "1.0.0-", "é"]
 BRANCHES = ["dev", "feature/x", "release/7", "hotfix/zeta", "feature/Ünï-42", "release", "v1.1.0", "main2", "user/joe/fix-1"]
 FORMATS = ["auto", "semver", "pep440"]
